@@ -134,7 +134,7 @@ def rand_buffer(rng):
 
 def gen_factory(rng):
     """random factory from a few graph shapes; every parameter from the PRNG"""
-    shape = rng.choice(["line", "line", "fanout", "fanin", "diamond", "two", "split", "split", "pack", "pack", "pack", "unpack", "cross", "cross", "merge", "spfan", "spfan", "chain2"])
+    shape = rng.choice(["line", "line", "fanout", "fanin", "diamond", "two", "split", "split", "pack", "pack", "pack", "unpack", "cross", "cross", "merge", "spfan", "spfan", "chain2", "fanin3"])
     edges, nodes, links = [], [], []
     def E(): edges.append(rand_buffer(rng)); return len(edges) - 1
     def N(d): nodes.append(d); return len(nodes) - 1
@@ -178,8 +178,11 @@ def gen_factory(rng):
             if rng.random() < 0.3: nodes[sp]["split_quantity"] = rng.choice([1, 2, 3])     # documented as ignored in UNPACK mode
             for _ in range(nco):
                 e = E(); links.append((e, c, sp))
-            for _ in range(nso):
+            for jj in range(nso):
                 kk = sink(); e = E(); links.append((e, sp, kk))
+                # a non-blocking splitter with several out-edges: one of them is often congested (drops on one edge, pushes on another)
+                if not nodes[sp]["blocking"] and nso >= 2 and jj == 0 and rng.random() < 0.6:
+                    edges[e].pop("delays", None); edges[e]["cap"] = 1; edges[e]["delay"] = rng.choice([4, 6, 8])
         else:
             for _ in range(nco):
                 kk = sink(); e = E(); links.append((e, c, kk))
@@ -232,6 +235,15 @@ def gen_factory(rng):
     elif shape == "fanin":
         s1 = source(1); s2 = source(1); m = machine(2, 1); k = sink()
         a = E(); b = E(); c = E(); links += [(a, s1, m), (b, s2, m), (c, m, k)]
+    elif shape == "fanin3":
+        # three sources -> one machine with three in-edges (one buffer pre-filled by a fast source): cancel loops over more than two requests
+        m = machine(3, 1); k = sink()
+        for j in range(3):
+            sidx = source(1); nodes[sidx]["blocking"] = True
+            nodes[sidx]["iat"] = [rng.choice([1, 2, 3])] if j < 2 else [1]
+            a = E(); links.append((a, sidx, m))
+            if j == 2: edges[a]["cap"] = 3
+        b = E(); links.append((b, m, k))
     elif shape == "cross":
         # two sources -> one machine with two in-edges and two out-edges -> two sinks
         s1 = source(1); s2 = source(1); m = machine(2, 2); k1 = sink(); k2 = sink()
